@@ -94,7 +94,7 @@ def _copy(v):
 
 OPS = ['meta[k]=v', 'change.meta[k]=v', 'file.meta[k]=v', 'options[x]=v', 'preamble.options[indent]=v',
        'diff.options[x]=v', 'preamble=v', 'file.diff=v', 'meta.stats.nested=v', 'add_change', 'add_file', 'parse-again',
-       'generate_stats', 'to_bytes-twice', '==', 'repr']
+       'generate_stats', 'to_bytes-twice', '==', 'repr', 'meta.options[spec-option]=v']
 OBSERVERS = {'to_bytes-twice', '==', 'repr'}
 
 
@@ -130,6 +130,12 @@ def apply_op(ctx, op, t, trees, shared, step, concrete=None):
         fl.diff = val('bytes')
     elif op == 'meta.stats.nested=v':
         t.meta.setdefault('stats', {})['n%d' % step] = val('int')
+    elif op == 'meta.options[spec-option]=v':
+        # options the specification defines for content sections but the object model has no typed attribute for on
+        # this section (what a file written by another tool carries after parsing)
+        t.meta_section.options['line_endings'] = 'unix'
+        if fl:
+            fl.meta_section.options['line_endings'] = 'dos'
     elif op == 'add_change':
         t.add_change()
     elif op == 'add_file' and ch:
